@@ -174,9 +174,10 @@ ACTION_EVENT = {
 RE_LAST = re.compile(r'/\\ last = <<(.*?)>>\s*$', re.M)
 
 
-def simulate_behaviours(ctx, cfg, num, depth=80, seed=1):
+def simulate_behaviours(ctx, cfg, num, depth=80, seed=1, with_fault=False):
     """TLC -simulate on MC_Runner: returns a list of behaviours, each a list of action labels
-    [name, arg, ...] taken from the history variable `last` of every state."""
+    [name, arg, ...] taken from the history variable `last` of every state.  with_fault: a list of
+    (behaviour, fault) where fault = dict(kind, at) is the fault TLC chose in the initial state."""
     d = os.path.join(ctx.scratch, f"sim-{seed}")
     os.makedirs(d, exist_ok=True)
     cmd = ["java", "-XX:+UseSerialGC", "-Xss64m", "-XX:-UsePerfData", "-cp", tlc.JARS, "tlc2.TLC", "-simulate",
@@ -209,10 +210,22 @@ def simulate_behaviours(ctx, cfg, num, depth=80, seed=1):
         beh = [lab for lab in labels[1:]]
         while len(beh) >= 2 and beh[-1] == beh[-2] and beh[-1][0] in ("MFinish", "MExc"):
             beh.pop()
-        out.append(beh)
+        if with_fault:
+            fm = re.search(r'fault = \[([^\]]*)\]', text)
+            kind = re.search(r'kind \|-> "([a-z]+)"', fm.group(1)).group(1)
+            at = int(re.search(r'at \|-> (\d+)', fm.group(1)).group(1))
+            out.append((beh, dict(kind=kind, at=at)))
+        else:
+            out.append(beh)
     import shutil
     shutil.rmtree(d, ignore_errors=True)
     return out
+
+
+def chunk_lengths(data, buffer_size):
+    """byte lengths of the chunks the reader cuts a single-end input into (dnaio trusted, as in count_chunks)"""
+    import dnaio
+    return [len(c) for c in dnaio.read_chunks(io.BytesIO(data), buffer_size)]
 
 
 def script_of(behaviour):
